@@ -8,6 +8,7 @@ from hypothesis import strategies as st
 
 from vlib import build
 from vlib import gen_loads as gl
+from vlib.core import jhash as core_jhash
 from vlib.core import Sub, Violation, guarded
 
 PROPERTY = "C19"
@@ -115,13 +116,31 @@ def search_month_ends(ctx):
 
 
 def check_tables(case, rec):
+    import warnings
+
+    from ghedesigner.enums import TimestepType
+
     ghe, media, coords, hourly = guarded(build.make_ghe, case, what="GHE construction")
+    hourly = list(hourly)  # our own copy of what was handed to the tool
+    # the tables are normally written after simulations: one case in three simulates with the hybrid method first, one in
+    # three (horizons up to 24 months) with the hourly method; the tables must still echo the 8760 input loads
+    pre = ["none", "hybrid", "hourly"][int(core_jhash(case), 16) % 3]
+    if pre == "hourly" and case["months"] > 24:
+        pre = "hybrid"
+    if pre != "none":
+        with warnings.catch_warnings():
+            warnings.simplefilter("ignore")
+            try:
+                guarded(ghe.simulate, method=TimestepType[pre.upper()], allow=(ValueError,), what=f"simulate({pre.upper()})")
+            except ValueError:
+                pre = "none(simulation rejected)"
+    rec.cls("tables_after_" + pre)
     design = types.SimpleNamespace(ghe=ghe, searchTracker=[])
     OM = _om()
     om = object.__new__(OM)
     rows = guarded(om.get_hourly_loading_data, design, what="get_hourly_loading_data")
     if len(rows) != 8761:
-        raise Violation(f"Loadings table has {len(rows) - 1} data rows", sig={"kind": "loadings_len"})
+        raise Violation(f"Loadings table has {len(rows) - 1} data rows (tables written after: {pre})", sig={"kind": "loadings_len"})
     for h in range(8760):
         mth, d, hr = gl.month_of_hour(h)
         r = rows[h + 1]
